@@ -184,6 +184,8 @@ def run(ctx):
     ctx.guard("R05.2", "typestate", lambda: r05_2(ctx))
     ctx.guard("R05.5", "doctype", lambda: r05_5(ctx))
     ctx.guard("R05.6", "attrs", lambda: r05_6(ctx))
+    from .C02 import r02_2
+    ctx.guard("R05.6", "adjust-injective", lambda: r02_2(ctx, "R05.6"))
     ctx.guard("R05.7", "nf-html", lambda: nf_common.nf_rule(ctx, "R05.7", "html_tree_builder", floor=100))
     ctx.guard("R05.7", "nf-xml", lambda: nf_common.nf_rule(ctx, "R05.7", "xml_tree_builder", floor=45))
     ctx.guard("R05.7", "nf-iface", lambda: nf_common.nf_rule(ctx, "R05.7", "markup5ever_interface", only=("tree_builder",)))
